@@ -52,6 +52,8 @@ GCreateNew  == Do({c \in Creates : ~Present(kv, c)})
 GCreateDup  == Do({c \in Creates : Present(kv, c)})
 GUpdateHit  == Do({c \in Updates : Present(kv, c)})
 GUpdateMiss == NonEmpty /\ Do({c \in Updates : ~Present(kv, c)})
+GModifyHit  == Do({c \in Modifies : Present(kv, c)})
+GModifyMiss == NonEmpty /\ Do({c \in Modifies : ~Present(kv, c)})
 GGetHit     == Do({c \in Gets : Present(kv, c)})
 GGetMiss    == NonEmpty /\ Do({c \in Gets : ~Present(kv, c)})
 GDeleteHit  == Do({c \in Deletes : Present(kv, c)})
@@ -64,6 +66,7 @@ GQueryMiss  == NonEmpty /\ Do({c \in GenMenu : c.op = "query" /\ ~Hits(c)})
 GenNext ==
   \/ GCreateNew \/ GCreateNew \/ GCreateDup
   \/ GUpdateHit \/ GUpdateMiss
+  \/ GModifyHit \/ GModifyHit \/ GModifyMiss
   \/ GGetHit \/ GGetMiss
   \/ GDeleteHit \/ GDeleteMiss
   \/ GListHit \/ GListMiss \/ GQueryHit \/ GQueryMiss
